@@ -121,6 +121,17 @@ CHECKS = {
        'relations are not decided.',
   note='Trusted: specs/ext_codes.json (NONMEM 7 guide, cross-checked with the example ext file shipped in the repo).',
   ref='DESIGN.md §2 C20'),
+ 'C13': dict(
+  technique='composition of the embedded filter grammar (lark terminals) with the token dispatch chain into an '
+            'operator table compared with the NM-TRAN table, loop-carried-state (per-iteration default) check on '
+            'the CFG, integer-comparison normal form of conversion constants, must-pass-through path rule in '
+            'update_source, regex-AST delimiter-capacity analysis of the separator',
+  text='R1-R4 decide the rule tables of the data reader for all operators / items / separators at once, and that the '
+       'writer side (write_csv, $DATA/$INPUT regeneration) agrees with the reader. What the separator regex and pandas '
+       'do on concrete files (padding, surplus columns) is not decided.',
+  note='Trusted: specs/filter_ops.json (NM-TRAN operator table); pandas query semantics; the comment-line regexes are '
+       'deliberately not checked (docs/NONMEM.rst and NM-TRAN disagree about @).',
+  ref='DESIGN.md §2 C13'),
 }
 NA = {}
 
